@@ -78,7 +78,7 @@ class FakeWS(protocol.Protocol):
     def connectionMade(self):
         self._conn = self.transport.conn
         self._conn.ws = self
-        if self._conn.world._abort_ws:
+        if getattr(self._conn.world, "_abort_ws", False):
             return          # the WebSocket handshake never completes: no onOpen
         self._conn.world._call_entry(self._conn.client, "ws_open", self._RC.ws_open, self)
 
